@@ -1,24 +1,27 @@
 #!/bin/bash
-# Run the relevant checks against every seeded mutant (scratch worktree, results in seeded/RESULTS.txt)
+# Run the relevant checks against seeded mutants (scratch worktree outside /repo and /verif).
+# usage: seeded_run.sh [prefix of seed id]   - per-seed results in seeded/<id>/result.txt, summary in seeded/RESULTS.txt
 cd "$(dirname "$0")"
 WT=/tmp/wt/seedrun
 git -C /repo worktree remove --force $WT 2>/dev/null
 git -C /repo worktree add -q --detach $WT HEAD || exit 1
 CLAIMED=$(python3 -c "import json; print(' '.join(c['property_id'] for c in json.load(open('MANIFEST.json'))['checks']))")
-: > seeded/RESULTS.txt
-for d in seeded/C*-m*; do
+for d in seeded/C*-*m*; do
   sid=$(basename $d)
   [ -n "$1" ] && [[ "$sid" != $1* ]] && continue
-  git -C $WT checkout -q -- . ; git -C $WT apply $PWD/$d/patch.diff || { echo "$sid patch does not apply" >> seeded/RESULTS.txt; continue; }
+  : > $d/result.txt
+  git -C $WT checkout -q -- . ; git -C $WT clean -fdq
+  git -C $WT apply $PWD/$d/patch.diff || { echo "$sid patch does not apply" >> $d/result.txt; continue; }
   for P in $(python3 -c "import json; print(' '.join(json.load(open('$d/meta.json'))['relevant_checks']))"); do
-    case " $CLAIMED " in *" $P "*) ;; *) echo "$sid $P not-claimed" >> seeded/RESULTS.txt; continue;; esac
+    case " $CLAIMED " in *" $P "*) ;; *) echo "$sid $P not-claimed" >> $d/result.txt; continue;; esac
     out=$(PYVC_REPO=$WT PYVC_OUT=/tmp/pyvc_out_seed ./check $P 2>&1 | grep -v -e WARNING -e "(0,0)" -e KNOWN)
     rc=$(echo "$out" | grep -c '^VIOLATION')
     real=$(echo "$out" | grep '^VIOLATION' | grep -vc 'no-failing-input-found')
     und=$(echo "$out" | grep -c '^UNDECIDED')
     first=$(echo "$out" | grep -m1 -e '^VIOLATION' -e '^UNDECIDED' -e '^CRASH' | sed 's/replay=[^ ]* //' | cut -c1-170)
-    echo "$sid $P violations=$rc with_input=$real undecided=$und :: ${first:-OK}" >> seeded/RESULTS.txt
+    echo "$sid $P violations=$rc with_input=$real undecided=$und :: ${first:-OK}" >> $d/result.txt
   done
 done
 git -C $WT checkout -q -- . ; git -C /repo worktree remove --force $WT; rm -rf /tmp/pyvc_out_seed
+cat seeded/C*-*m*/result.txt > seeded/RESULTS.txt 2>/dev/null
 cat seeded/RESULTS.txt
